@@ -133,6 +133,26 @@ def w_filter(case):
                      'order (%s)' % lab, 'expected': eg, 'observed': sens,
                      'behaviour': 'grad'})
     base = got
+    # padding with many all-NaN individuals, behind / in front of / between the
+    # measured ones (frames of different cohort sizes stacked to one array)
+    for n_pad, where in ((40, 'back'), (64, 'front'), (33, 'middle'), (100, 'back')):
+        blk = np.full((n_pad,) + y.shape[1:], np.nan)
+        if where == 'back':
+            ybig = np.concatenate([y, blk], axis=0)
+        elif where == 'front':
+            ybig = np.concatenate([blk, y], axis=0)
+        else:
+            ybig = np.concatenate([y[:1], blk, y[1:]], axis=0)
+        fb = build_filter(blocks, ybig, composed)
+        g = fb.compute_log_likelihood(sim.copy())
+        sb_, _ = fb.compute_sensitivities(sim.copy())
+        ntr += 2
+        if not tol.close(g, base) or not tol.close(sb_, base):
+            viol.append({'sub': 'pad_many', 'message': 'padding the measurements '
+                         'with %d all-NaN individuals (%s) changes the value (%s)'
+                         % (n_pad, where, lab), 'expected': base,
+                         'observed': [g, sb_], 'behaviour': 'pad'})
+            break
     # padding with an all-NaN individual
     ypad = np.concatenate([y, np.full((1,) + y.shape[1:], np.nan)], axis=0)
     g = build_filter(blocks, ypad, composed).compute_log_likelihood(sim.copy())
@@ -432,6 +452,17 @@ def build(tier, seed):
             for n_ids, n_obs, T in ((1, 1, 1), (2, 1, 2)):
                 extreme.append(make_offset([(kind, T, nk)], n_ids, n_obs, T,
                                            2 * nk, seed, offset, spread))
+    # measurements in small / large units: the same data times 1e-5, 1e-7, 1e4 (the
+    # estimators are scale-equivariant; nothing in the documentation floors a variance)
+    for kind, nk in kinds:
+        for scale_ in (1e-5, 1e-7, 1e4):
+            for n_ids, n_obs, T in ((2, 1, 2), (1, 2, 1)):
+                c = make_case([(kind, T, nk)], False, n_ids, n_obs, T,
+                              np.zeros((n_ids, n_obs, T), dtype=bool),
+                              2 * nk if kind == 'GM' else 3, seed, False)
+                c['sim'] = (np.array(c['sim']) * scale_).tolist()
+                c['y'] = (np.array(c['y'], dtype=float) * scale_).tolist()
+                extreme.append(c)
     return {
         'parts': [
             Part('extreme', extreme, w_filter,
